@@ -406,19 +406,66 @@ fn split_gap(g: &[char]) -> Option<Vec<Piece>> {
     Some(out)
 }
 
-const WS: &[&str] = &[" ", "  ", "\t", "\n", "\r\n", "\n\n  ", " \t ", "\n\t", "   \n ", "\r\n\r\n"];
-const NL: &[&str] = &["\n", "\r\n", "\n  ", "\n\n", "\r\n\t"];
-const LINE_COMMENTS: &[&str] = &["-- c13", "--", "-- signal X : bit; end;", "--! \"doc' /* x", "-- \u{e9}\u{d7}\u{f7} Latin-1"];
-const BLOCK_COMMENTS: &[&str] = &["/* c13 */", "/**/", "/* a\n   b -- c\n */", "/* \"unterminated 'x */", "/* end; entity; */"];
+const WS: &[&str] = &[" ", "  ", "\t", "\n", "\r\n", "\n\n  ", " \t ", "\n\t", "   \n ", "\r\n\r\n", "\r", " \r "];
+const NL: &[&str] = &["\n", "\r\n", "\n  ", "\n\n", "\r\n\t", "\r", "\r  "];
+const LINE_COMMENTS: &[&str] = &[
+    "-- c13", "--", "-- signal X : bit; end;", "--! \"doc' /* x", "-- \u{e9}\u{d7}\u{f7} Latin-1", "--/* not a block", "-- */ x /*",
+    "---", "-- trailing blanks  \t ", "--\t", "-- vhdl_ls  off", "-- VHDL_LS OFF", "-- vhdl_ls offside", "--vhdl_ls on.", "-- \\ext\\ 'c' \"s\"",
+];
+const BLOCK_COMMENTS: &[&str] = &[
+    "/* c13 */", "/**/", "/***/", "/****/", "/*****/", "/* x **/", "/* x ***/", "/** x */", "/*** x **/", "/**** x ****/", "/*/ x */",
+    "/*/*/", "/* a * / b */", "/* a ** / b **/", "/* -- */", "/*\n*/", "/*\n**/", "/* a\n   b -- c\n */", "/* \"unterminated 'x */",
+    "/* end; entity; */", "/* \\ \\x\\ */", "/* vhdl_ls off x */", "/* VHDL_LS OFF */", "/* vhdl_ls  on **/", "/* /* nested? */",
+    "/* \u{e9}\u{d7} *\u{f7}*/", "/*\r\n * doc\r\n **/", "/* *\n/ */",
+];
+const BLOCK_BITS: &[&str] = &["*", "**", "***", "/", "//", " ", "x", "\n", "-", "--", "\"", "'", "\\", "* /", "vhdl_ls off", "\u{e9}", "\t", "\r\n"];
+const LINE_BITS: &[&str] = &["/*", "*/", "**/", "\"", "'", "\\", " ", "\t", "x", "\u{e9}\u{d7}\u{f7}", "--", "vhdl_ls off", "end;", "*", "/"];
 
-fn new_gap(rng: &mut Rng, orig: &[char], mode: u32, must_sep: bool, st: &mut TStats) -> String {
+fn is_directive_body(body: &str) -> bool {
+    let t = body.trim();
+    t == "vhdl_ls off" || t == "vhdl_ls on"
+}
+
+/// a block comment with a random body over stars, slashes, dashes, quotes, line breaks ...; the body
+/// never contains `*/` (it may end with stars: `**/`) and is not a tool directive
+fn random_block_comment(rng: &mut Rng) -> String {
+    let mut body = String::new();
+    for _ in 0..rng.below(7) {
+        body.push_str(BLOCK_BITS[rng.below(BLOCK_BITS.len())]);
+    }
+    while body.contains("*/") {
+        body = body.replace("*/", "* /");
+    }
+    if is_directive_body(&body) {
+        body.push('x');
+    }
+    format!("/*{}*/", body)
+}
+fn random_line_comment(rng: &mut Rng) -> String {
+    let mut body = String::new();
+    for _ in 0..rng.below(6) {
+        body.push_str(LINE_BITS[rng.below(LINE_BITS.len())]);
+    }
+    if is_directive_body(&body) {
+        body.push('x');
+    }
+    format!("--{}", body)
+}
+fn pick_block_comment(rng: &mut Rng) -> String {
+    if rng.below(2) == 0 { BLOCK_COMMENTS[rng.below(BLOCK_COMMENTS.len())].to_string() } else { random_block_comment(rng) }
+}
+fn pick_line_comment(rng: &mut Rng) -> String {
+    if rng.below(2) == 0 { LINE_COMMENTS[rng.below(LINE_COMMENTS.len())].to_string() } else { random_line_comment(rng) }
+}
+
+fn new_gap(rng: &mut Rng, orig: &[char], mode: u32, must_sep: bool, is_tail: bool, st: &mut TStats) -> String {
     let pieces = match split_gap(orig) {
         Some(p) => p,
         None => return orig.iter().collect(),
     };
-    let directive = |s: &str| s.to_ascii_lowercase().contains("vhdl_ls");
     if pieces.iter().any(|p| match p {
-        Piece::Line(s) | Piece::Block(s) => directive(s),
+        Piece::Line(s) => is_directive_body(&s[2..]),
+        Piece::Block(s) => is_directive_body(&s[2..s.len() - 2]),
         _ => false,
     }) {
         return orig.iter().collect();
@@ -440,7 +487,7 @@ fn new_gap(rng: &mut Rng, orig: &[char], mode: u32, must_sep: bool, st: &mut TSt
                 }
             }
         };
-        if *pending_nl && !(w.starts_with('\n') || w.starts_with("\r\n")) {
+        if *pending_nl && !(w.starts_with('\n') || w.starts_with('\r')) {
             out.push('\n');
         }
         out.push_str(&w);
@@ -453,10 +500,10 @@ fn new_gap(rng: &mut Rng, orig: &[char], mode: u32, must_sep: bool, st: &mut TSt
                 *pending_nl = false;
             }
             if rng.below(2) == 0 {
-                out.push_str(LINE_COMMENTS[rng.below(LINE_COMMENTS.len())]);
+                out.push_str(&pick_line_comment(rng));
                 *pending_nl = true;
             } else {
-                out.push_str(BLOCK_COMMENTS[rng.below(BLOCK_COMMENTS.len())]);
+                out.push_str(&pick_block_comment(rng));
             }
             st.comments_added += 1;
         }
@@ -493,7 +540,8 @@ fn new_gap(rng: &mut Rng, orig: &[char], mode: u32, must_sep: bool, st: &mut TSt
         }
         maybe_insert(&mut out, rng, &mut pending_nl, st);
     }
-    if pending_nl {
+    // a line comment may end the file without a line break
+    if pending_nl && !(is_tail && mode & MODE_COMMENT != 0 && rng.below(2) == 0) {
         out.push_str(NL[rng.below(NL.len())]);
     }
     if must_sep && out.is_empty() {
@@ -514,7 +562,7 @@ fn permute_case(rng: &mut Rng, w: &[char]) -> String {
 /// A token-preserving transformation of one file; `None` = the file is kept as it is (lexical
 /// errors, tool directives, `vhdl_ls off`).
 fn transform_file(symbols: &Symbols, rng: &mut Rng, text: &str, mode: u32, st: &mut TStats) -> Option<String> {
-    if text.contains('`') || text.to_ascii_lowercase().contains("vhdl_ls") {
+    if text.contains('`') {
         return None;
     }
     let ft = tokenize(symbols, text);
@@ -531,6 +579,31 @@ fn transform_file(symbols: &Symbols, rng: &mut Rng, text: &str, mode: u32, st: &
     if toks.iter().any(|t| t.s >= t.e || t.e > chars.len()) {
         return None;
     }
+    // a real `vhdl_ls off/on` directive anywhere: tokens of the ignored region are not in the stream, keep the file
+    {
+        let mut pe = 0usize;
+        let mut gaps: Vec<&[char]> = toks.iter().map(|t| { let g = &chars[pe..t.s]; pe = t.e; g }).collect();
+        gaps.push(&chars[pe..]);
+        for g in gaps {
+            match split_gap(g) {
+                None => {
+                    let gs: String = g.iter().collect();
+                    if gs.contains("vhdl_ls") {
+                        return None;
+                    }
+                }
+                Some(ps) => {
+                    if ps.iter().any(|p| match p {
+                        Piece::Line(c) => is_directive_body(&c[2..]),
+                        Piece::Block(c) => is_directive_body(&c[2..c.len() - 2]),
+                        _ => false,
+                    }) {
+                        return None;
+                    }
+                }
+            }
+        }
+    }
     let mut out = String::new();
     let mut prev_end = 0usize;
     // gaps after a tick and after the token that follows a tick stay verbatim: `'` x `'` must not
@@ -544,7 +617,7 @@ fn transform_file(symbols: &Symbols, rng: &mut Rng, text: &str, mode: u32, st: &
             gap.iter().collect()
         } else {
             let must_sep = i > 0 && !gap.is_empty() && !may_touch(&chars[toks[i - 1].s..toks[i - 1].e], tt);
-            new_gap(rng, gap, mode, must_sep, st)
+            new_gap(rng, gap, mode, must_sep, false, st)
         };
         // `-` followed by an inserted `-- ..` would read as a comment that starts one character early
         let g = if g.starts_with('-') && out.ends_with('-') { format!(" {}", g) } else { g };
@@ -567,7 +640,7 @@ fn transform_file(symbols: &Symbols, rng: &mut Rng, text: &str, mode: u32, st: &
         prev_end = t.e;
     }
     let tail = &chars[prev_end..];
-    let g = new_gap(rng, tail, mode, false, st);
+    let g = new_gap(rng, tail, mode, false, true, st);
     if g.chars().ne(tail.iter().copied()) {
         st.changed_gaps += 1;
     }
